@@ -96,8 +96,26 @@ def warmup(extra=False):
 
 
 # --------------------------------------------------------------------------- case helpers
+_buffers = {}
+
+
 def pts_of(case, key='pts'):
-    return np.array(case[key], dtype=float).reshape(-1, 2)
+    """The case's curve as a float64 (n, 2) array.
+
+    The array OBJECT is reused for every case of the same length within a worker process and only
+    its contents are overwritten, the way a caller re-fills one buffer between calls.  A library
+    that memoises anything by object identity (or by index ranges only) across calls therefore
+    sees the same object with different data in consecutive cases - a call *history* for free."""
+    data = case[key]
+    n = len(data)
+    buf = _buffers.get(n)
+    if buf is None:
+        buf = _buffers[n] = np.empty((n, 2), dtype=float)
+        if len(_buffers) > 4096:
+            _buffers.clear()
+            _buffers[n] = buf
+    buf[:] = np.array(data, dtype=float).reshape(-1, 2)
+    return buf
 
 
 def digest(obj):
